@@ -108,13 +108,11 @@ def interface_case(rng, c, pre):
 
 def gen(desc):
     if desc.get("kind") == "small":
-        k = 0
-        for c in rbgen.small_cases(0, 1, vendors=("huawei", "cisco", "arista")):
+        # one slice = whole config pairs, each under all eight ACLs one after the other (ACLs that share rule texts but
+        # differ below them follow each other in one process)
+        for c in rbgen.small_cases(desc["part"], desc["parts"], vendors=("huawei", "cisco", "arista")):
             for acl in SMALL_ACLS:
-                if k % desc["parts"] == desc["part"]:
-                    c2 = dict(c, acl_texts=list(acl), tagged=len(acl) > 1)
-                    yield c2
-                k += 1
+                yield dict(c, acl_texts=list(acl), tagged=len(acl) > 1)
         return
     rng = random.Random(desc["seed"])
     for _ in range(desc["n"]):
